@@ -651,6 +651,7 @@ func main() {
 	handoverAtomicity(r, rnd)
 	duplexAdversary(r, rnd)
 	deferredReaders(r, rnd)
+	afterRejectNewKeys(r, rnd)
 	insertedAtHandover(r, rnd)
 	r.Floor("direct_cases", int(r.Counter("direct_cases")), 5000)
 	r.Floor("connection_cases", int(r.Counter("connection_cases")), 200)
